@@ -271,6 +271,16 @@ func buildInvocation(c cast, s InvSpec, prf []cid.Cid) (*invocation.Token, error
 		opts = append(opts, invocation.WithInvokedAt(time.Now().Add(-time.Hour)))
 	case "future":
 		opts = append(opts, invocation.WithInvokedAtIn(time.Hour))
+	case "zero": // the zero time.Time (year 1)
+		opts = append(opts, invocation.WithInvokedAt(time.Time{}))
+	case "epoch":
+		opts = append(opts, invocation.WithInvokedAt(time.Unix(0, 0)))
+	case "neg":
+		opts = append(opts, invocation.WithInvokedAt(time.Unix(-1_000_000_000, 500)))
+	case "y9999":
+		opts = append(opts, invocation.WithInvokedAt(time.Date(9999, 12, 31, 23, 59, 59, 0, time.UTC)))
+	case "y2300":
+		opts = append(opts, invocation.WithInvokedAt(time.Date(2300, 1, 1, 0, 0, 0, 0, time.UTC)))
 	}
 	if s.NonceLen > 0 {
 		opts = append(opts, invocation.WithNonce(labelNonce(s.Label, s.NonceLen)))
@@ -312,6 +322,7 @@ type TokRec struct {
 	Exp   string
 	Iat   string
 	Cause string
+	Exact string // the bounds at nanosecond resolution (immutability snapshots only)
 }
 
 func nodeHex(n datamodel.Node) string {
@@ -384,6 +395,13 @@ func rawOf(tk token.Token) rawRec {
 func (x rawRec) render() TokRec {
 	r := TokRec{Type: x.kind, Iss: didStr(x.iss), Aud: didStr(x.aud), Sub: didStr(x.sub), Cmd: x.cmd, Nonce: fmt.Sprintf("%x", x.nonce),
 		Nbf: tsStr(x.nbf), Exp: tsStr(x.exp), Iat: tsStr(x.iat), Cause: "-", Pol: "-"}
+	for _, t := range []*time.Time{x.nbf, x.exp, x.iat} {
+		if t == nil {
+			r.Exact += "-;"
+		} else {
+			r.Exact += fmt.Sprintf("%d.%09d;", t.Unix(), t.Nanosecond())
+		}
+	}
 	if x.kind == "dlg" {
 		r.Iat = "-"
 		pn, err := x.pol.ToIPLD()
@@ -437,7 +455,7 @@ func (r TokRec) Content() string {
 func (r TokRec) Ordered() string {
 	return strings.Join([]string{r.Type, r.Iss, r.Aud, r.Sub, r.Cmd, r.Pol, r.Nonce,
 		strings.Join(r.Meta, ","), strings.Join(r.Args, ","), strings.Join(r.Prf, ","),
-		r.Nbf, r.Exp, r.Iat, r.Cause}, "|")
+		r.Nbf, r.Exp, r.Iat, r.Cause, r.Exact}, "|")
 }
 
 func diffRec(a, b TokRec) string {
